@@ -313,10 +313,14 @@ where
     unsafe fn validate_unchecked(bytes: &[u8]) -> Result<(), Error> {
         // Only the part of the slice that the resulting reference covers is examined.
         let bytes = unsafe { bytes.get_unchecked(..floor_mul(bytes.len(), Self::ALIGN)) };
-        for item_bytes in DataIter::<'_, T, L, _>::new(bytes) {
-            T::validate(item_bytes?)?;
+        let mut iter = DataIter::<'_, T, L, _>::new(bytes);
+        loop {
+            let pos = iter.pos;
+            match iter.next() {
+                Some(item_bytes) => T::validate(item_bytes?).map_err(|e| e.offset(pos + Self::OFFSET_SIZE))?,
+                None => break Ok(()),
+            }
         }
-        Ok(())
     }
 }
 
